@@ -167,6 +167,31 @@ inline void optional_convert_ops() {
   vt_cover(op == 1 && hs && hd, "converting move over a non-empty Optional reached");
 }
 
+// converting assignments into an Optional of a TRACKED type (Optional<int> -> Optional<Tracked<0>>): the element that the
+// destination held is assigned or destroyed, never overwritten
+inline void optional_convert_tracked_ops() {
+  ghost_reset();
+  {
+    nop::Optional<int> src;
+    const bool hs = nondet<bool>();
+    const int vs = nondet<int>();
+    if (hs) src = vs;
+    nop::Optional<T0> dst;
+    const bool hd = nondet<bool>();
+    if (hd) dst = T0(nondet<int>());
+    vt_check(g_live == (hd ? 1 : 0), "operand state of the converting assignment");
+    const bool move = nondet<bool>();
+    if (move) dst = std::move(src);
+    else dst = src;
+    vt_check(dst.empty() == !hs, "converting assignment transfers the state");
+    if (hs) vt_check(dst.get().value == vs && dst.get().alive == kAlive, "converting assignment converts the value into a live element");
+    vt_check(g_live == (hs ? 1 : 0), "after a converting assignment: exactly one live element iff the destination holds a value");
+    vt_cover(hs && hd && !move, "converting copy over a non-empty Optional reached");
+    vt_cover(hs && hd && move, "converting move over a non-empty Optional reached");
+  }
+  vt_check(g_live == 0 && g_ctor == g_dtor && g_bad == 0, "every constructed element destroyed exactly once");
+}
+
 // ------------------------------------------------------------------------------- Entry
 inline void entry_ops() {
   ghost_reset();
@@ -201,6 +226,11 @@ inline void make_result(R0* r, int* st, int* val, Err* err) {
   *err = nondet<bool>() ? Err::A : Err::B;
   if (*st == 1) *r = *err;
   else if (*st == 2) *r = T0(*val);
+  else if (nondet<bool>()) {
+    // the empty state reached the long way: held a value (or an error) first, then emptied
+    if (nondet<bool>()) *r = T0(*val); else *r = *err;
+    if (nondet<bool>()) r->clear(); else { R0 sink(std::move(*r)); (void)sink; }
+  }
 }
 inline void check_result(const R0& r, int st, int val, Err err, const char*) {
   vt_check(r.has_value() == (st == 2), "has_value reports the state");
@@ -308,6 +338,7 @@ inline void status_ops() {
 VT_HARNESS(h_optional_tracked) { vt::optional_ops<nop::Optional<vt::T0>, vt::T0>(); }
 VT_HARNESS(h_optional_int) { vt::optional_ops<nop::Optional<int>, int>(); }
 VT_HARNESS(h_optional_convert) { vt::optional_convert_ops(); }
+VT_HARNESS(h_optional_convert_tracked) { vt::optional_convert_tracked_ops(); }
 VT_HARNESS(h_optional_relational) { vt::relational_ops(); }
 VT_HARNESS(h_entry) { vt::entry_ops(); }
 VT_HARNESS(h_result) { vt::result_ops(); }
